@@ -64,6 +64,16 @@ def cmp_cross(ctx, key, what, a, b, replay, tol=1e-6):
         if not Z.same(sb.transpose("time", "mode").values * f, sa.transpose("time", "mode").values, tol):
             ctx.violation(key + ":scores", "%s: scores differ beyond a common sign per mode" % what, replay)
             return
+    # reconstructions (phase/sign factors cancel between scores and patterns)
+    try:
+        ra, rb = a.inverse_transform(*a.scores()), b.inverse_transform(*b.scores())
+    except NotImplementedError:
+        return
+    for xa, xb in zip(ra, rb):
+        if not Z.same(xb.transpose(*xa.dims).values, xa.values, max(tol, 1e-6)):
+            ctx.violation(key + ":reconstruction", "%s: inverse_transform(scores()) differs (max diff %.3g)" % (
+                what, float(np.abs(xb.transpose(*xa.dims).values - xa.values).max())), replay)
+            return
 
 
 def gap_data(rng, n, p, name="x", cplx=False):
@@ -122,9 +132,10 @@ def run(ctx):
         # 5. a Complex model fed real data equals the real model
         ctx.case(("complex-real", n, p1, k, i), nontrivial=True, tag="ComplexEOF(real)=EOF", sample=dict(pair="ComplexEOF on real data vs EOF", shape=[n, p1], k=k))
         try:
-            a = xe.single.EOF(n_modes=k, solver="full")
+            sflags = dict(center=bool(rng.random() < 0.6), standardize=flags["standardize"])
+            a = xe.single.EOF(n_modes=k, solver="full", **sflags)
             a.fit(X, "time")
-            b = xe.single.ComplexEOF(n_modes=k, solver="full")
+            b = xe.single.ComplexEOF(n_modes=k, solver="full", **sflags)
             b.fit(X, "time")
             cmp_single(ctx, "C10:ComplexEOF-on-real", "ComplexEOF on real data vs EOF", a, b, replay)
             a = xe.cross.MCA(n_modes=k, use_pca=False, solver="full")
@@ -137,10 +148,11 @@ def run(ctx):
         # 6. ExtendedEOF with a single embedding equals EOF
         ctx.case(("eeof1", n, p1, k, i), nontrivial=True, tag="ExtendedEOF(embedding=1)=EOF", sample=dict(pair="ExtendedEOF(embedding=1) vs EOF", shape=[n, p1], k=k))
         try:
-            a = xe.single.EOF(n_modes=k, solver="full")
+            sflags = dict(center=bool(rng.random() < 0.6), standardize=flags["standardize"])
+            a = xe.single.EOF(n_modes=k, solver="full", **sflags)
             a.fit(X, "time")
             for tau in (1, 3):
-                b = xe.single.ExtendedEOF(n_modes=k, tau=tau, embedding=1, solver="full")
+                b = xe.single.ExtendedEOF(n_modes=k, tau=tau, embedding=1, solver="full", n_pca_modes=(None if rng.random() < 0.5 else p1), **sflags)
                 b.fit(X, "time")
                 if not Z.same(b.explained_variance().values, a.explained_variance().values, 1e-7):
                     ctx.violation("C10:ExtendedEOF-single-embedding:explained-variance", "ExtendedEOF(embedding=1, tau=%d): explained variance differs from EOF" % tau, replay)
@@ -167,12 +179,15 @@ def run(ctx):
         # 8. PCA pre-reduction keeping all modes equals no pre-reduction
         ctx.case(("pca-all", n, p1, p2, k, i), nontrivial=True, tag="use_pca(all)=no-pca", sample=dict(pair="use_pca=True,n_pca_modes='all' vs use_pca=False", k=k))
         try:
-            for cls, kw in ((xe.cross.MCA, {}), (xe.cross.CCA, {}), (xe.cross.CPCCA, {"alpha": 0.5})):
+            Xc, Yc = gap_data(rng, n, p1, "x", cplx=True), gap_data(rng, n, p2, "y", cplx=True)
+            for cls, kw, (dx, dy) in ((xe.cross.MCA, {}, (X, Y)), (xe.cross.CCA, {}, (X, Y)), (xe.cross.CPCCA, {"alpha": 0.5}, (X, Y)),
+                                      (xe.cross.ComplexMCA, {}, (Xc, Yc)), (xe.cross.ComplexCPCCA, {"alpha": 0.5}, (Xc, Yc))):
                 a = cls(n_modes=k, use_pca=False, solver="full", **kw)
-                a.fit(X, Y, "time")
+                a.fit(dx, dy, "time")
                 b = cls(n_modes=k, use_pca=True, n_pca_modes="all", solver="full", **kw)
-                b.fit(X, Y, "time")
-                cmp_cross(ctx, "C10:pca-all-modes:%s" % cls.__name__, "%s with PCA keeping all modes vs no PCA" % cls.__name__, a, b, replay)
+                b.fit(dx, dy, "time")
+                cmp_cross(ctx, "C10:pca-all-modes:%s" % cls.__name__, "%s with PCA keeping all modes vs no PCA" % cls.__name__, a, b,
+                          dict(replay, Xc=np.asarray(dx.values), Yc=np.asarray(dy.values)))
         except Exception as e_:
             ctx.violation("C10:pca-all-modes:error", "PCA-all-modes comparison raised %r" % (e_,), replay)
         # 9. two-view multi-set CCA and cross-set CCA find the same canonical correlations
